@@ -21,7 +21,6 @@ using namespace rkcommon;
 using namespace rkcommon::math;
 using c05::Counters;
 using c05::num;
-using c05::viol;
 
 struct M128
 {
@@ -305,6 +304,15 @@ struct Cfg
     }
     return boxid[key(l, u)];
   }
+  int relcode(int ia, int ib) const
+  {
+    static const char *names[] = {"an operand is the empty box", "disjoint boxes", "nested boxes", "touching boxes", "boxes overlapping in every axis", "boxes overlapping, degenerate in some axis"};
+    const char *r = relation(ia, ib);
+    for (int i = 0; i < 6; i++)
+      if (std::string(r) == names[i])
+        return i;
+    return 7;
+  }
   const char *relation(int ia, int ib) const
   {
     if (ia == 0 || ib == 0)
@@ -350,7 +358,7 @@ static void pair_touch_real(const Cfg<V> &c, int ia, int ib, bool want_common, C
   h = h * 31 + t;
   RP("touchingOrOverlapping = " + std::to_string(t) + " want " + std::to_string(want_common));
   if (t != want_common)
-    viol(C, c.name + " touchingOrOverlapping|differs from 'a common point exists'|" + c.relation(ia, ib), pair_spec(c, ia, ib),
+    VIOL(C, c.relcode(ia, ib), c.name + " touchingOrOverlapping|differs from 'a common point exists'|" + c.relation(ia, ib), pair_spec(c, ia, ib),
         bstr(c.B[ia]) + " vs " + bstr(c.B[ib]) + ": got " + (t ? "true" : "false") + " want " + (want_common ? "true" : "false"));
 }
 template <typename V, int N>
@@ -388,18 +396,18 @@ static void pair_free(const Cfg<V> &c, int ia, int ib, Counters &C, uint64_t &h,
     int p = 0;
     while (LI.test(p) == W.test(p))
       p++;
-    viol(C, c.name + " intersectionOf|does not contain exactly the common points|" + c.relation(ia, ib), pair_spec(c, ia, ib),
+    VIOL(C, c.relcode(ia, ib), c.name + " intersectionOf|does not contain exactly the common points|" + c.relation(ia, ib), pair_spec(c, ia, ib),
         bstr(a) + " and " + bstr(b) + " -> " + bstr(I) + ": point " + vstr(c.P[p]) + (LI.test(p) ? " is contained but not common" : " is common but not contained"));
   }
   const bool ie = I.empty();
   RP("intersectionOf(...).empty() = " + std::to_string(ie) + " want " + std::to_string(!common));
   if (ie != !common)
-    viol(C, c.name + " intersectionOf(...).empty()|differs from 'no common point'|" + c.relation(ia, ib), pair_spec(c, ia, ib),
+    VIOL(C, c.relcode(ia, ib), c.name + " intersectionOf(...).empty()|differs from 'no common point'|" + c.relation(ia, ib), pair_spec(c, ia, ib),
         bstr(a) + " and " + bstr(b) + " -> " + bstr(I) + ": empty() = " + (ie ? "true" : "false") + ", common grid points: " + std::to_string(W.count()));
   const bool dj = disjoint(a, b);
   RP("disjoint = " + std::to_string(dj) + " want " + std::to_string(!common));
   if (dj != !common)
-    viol(C, c.name + " disjoint|differs from 'no common point'|" + c.relation(ia, ib), pair_spec(c, ia, ib),
+    VIOL(C, c.relcode(ia, ib), c.name + " disjoint|differs from 'no common point'|" + c.relation(ia, ib), pair_spec(c, ia, ib),
         bstr(a) + " vs " + bstr(b) + ": got " + (dj ? "true" : "false") + ", common grid points: " + std::to_string(W.count()));
   h = h * 31 + ie * 2 + dj;
   pair_touch(c, ia, ib, common, C, h, NTag<N>());
@@ -421,7 +429,7 @@ static void check_pair(const Cfg<V> &c, int ia, int ib, Counters &C, uint64_t &h
     if (!U.any()) {
       RP("a.extend(b) = " + bstr(E) + " empty() = " + std::to_string(E.empty()) + " want empty");
       if (!E.empty() || c.libmask(E).any())
-        viol(C, c.name + " extend(box)|empty extended by empty is not empty|" + c.relation(ia, ib), pair_spec(c, ia, ib), "got " + bstr(E));
+        VIOL(C, c.relcode(ia, ib), c.name + " extend(box)|empty extended by empty is not empty|" + c.relation(ia, ib), pair_spec(c, ia, ib), "got " + bstr(E));
     } else {
       const int hb = c.hull(U);
       const Box &Hb = c.B[hb];
@@ -430,10 +438,10 @@ static void check_pair(const Cfg<V> &c, int ia, int ib, Counters &C, uint64_t &h
       if (!(same(E.lower, Hb.lower) && same(E.upper, Hb.upper))) {
         const M128 LE = c.libmask(E);
         const bool covers = (LE & U) == U;
-        viol(C, c.name + " extend(box)|" + (covers ? "result is not the smallest box containing both|" : "result does not contain both operands|") + c.relation(ia, ib),
+        VIOL(C, c.relcode(ia, ib) + 8 * covers, c.name + " extend(box)|" + (covers ? "result is not the smallest box containing both|" : "result does not contain both operands|") + c.relation(ia, ib),
             pair_spec(c, ia, ib), bstr(a) + " extend " + bstr(b) + " = " + bstr(E) + " want " + bstr(Hb));
       } else if (c.libmask(E) != c.M[hb]) {
-        viol(C, c.name + " extend(box)|result does not contain exactly the hull's points|" + c.relation(ia, ib), pair_spec(c, ia, ib),
+        VIOL(C, c.relcode(ia, ib), c.name + " extend(box)|result does not contain exactly the hull's points|" + c.relation(ia, ib), pair_spec(c, ia, ib),
             bstr(a) + " extend " + bstr(b) + " = " + bstr(E));
       }
       C.trans += c.NP;
@@ -444,7 +452,7 @@ static void check_pair(const Cfg<V> &c, int ia, int ib, Counters &C, uint64_t &h
     const bool eq = a == b, ne = a != b;
     C.trans += 2;
     if (eq != (ia == ib) || ne != (ia != ib))
-      viol(C, c.name + " operator==/!=|differs from 'same bounds'|" + c.relation(ia, ib), pair_spec(c, ia, ib),
+      VIOL(C, c.relcode(ia, ib), c.name + " operator==/!=|differs from 'same bounds'|" + c.relation(ia, ib), pair_spec(c, ia, ib),
           bstr(a) + " vs " + bstr(b) + ": == gives " + (eq ? "true" : "false") + ", != gives " + (ne ? "true" : "false"));
   }
   pair_free(c, ia, ib, C, h, NTag<Cfg<V>::N>());
@@ -462,7 +470,7 @@ static void measures(const Cfg<V> &c, int ia, const std::string &spec, Counters 
   const V ctr = center(c.B[ia]);
   C.trans++;
   if (!same(ctr, c.B[ia].center()))
-    viol(C, c.name + " center(box)|differs from box.center()|any", spec, bstr(c.B[ia]) + " got " + vstr(ctr));
+    VIOL(C, 0, c.name + " center(box)|differs from box.center()|any", spec, bstr(c.B[ia]) + " got " + vstr(ctr));
 }
 template <typename V>
 static void measures(const Cfg<V> &c, int ia, const std::string &spec, Counters &C, uint64_t &h, NTag<2>)
@@ -470,13 +478,13 @@ static void measures(const Cfg<V> &c, int ia, const std::string &spec, Counters 
   const V ctr = center(c.B[ia]);
   C.trans += 2;
   if (!same(ctr, c.B[ia].center()))
-    viol(C, c.name + " center(box)|differs from box.center()|any", spec, bstr(c.B[ia]) + " got " + vstr(ctr));
+    VIOL(C, 0, c.name + " center(box)|differs from box.center()|any", spec, bstr(c.B[ia]) + " got " + vstr(ctr));
   const double sx = c.gv[c.bu[ia][0]] - c.gv[c.bl[ia][0]], sy = c.gv[c.bu[ia][1]] - c.gv[c.bl[ia][1]];
   const double got = (double)area(c.B[ia]);
   RP("area = " + num(got) + " want " + num(sx * sy));
   h = h * 31 + (uint64_t)(got * 16);
   if (got != sx * sy)
-    viol(C, c.name + " area|differs from width*height|" + (sx * sy == 0 ? "degenerate box" : "box with interior"), spec,
+    VIOL(C, sx * sy == 0, c.name + " area|differs from width*height|" + (sx * sy == 0 ? "degenerate box" : "box with interior"), spec,
         bstr(c.B[ia]) + " got " + num(got) + " want " + num(sx * sy));
 }
 template <typename V>
@@ -485,7 +493,7 @@ static void measures(const Cfg<V> &c, int ia, const std::string &spec, Counters 
   const V ctr = center(c.B[ia]);
   C.trans += 3;
   if (!same(ctr, c.B[ia].center()))
-    viol(C, c.name + " center(box)|differs from box.center()|any", spec, bstr(c.B[ia]) + " got " + vstr(ctr));
+    VIOL(C, 0, c.name + " center(box)|differs from box.center()|any", spec, bstr(c.B[ia]) + " got " + vstr(ctr));
   const double sx = c.gv[c.bu[ia][0]] - c.gv[c.bl[ia][0]], sy = c.gv[c.bu[ia][1]] - c.gv[c.bl[ia][1]], sz = c.gv[c.bu[ia][2]] - c.gv[c.bl[ia][2]];
   const double wa = 2 * (sx * sy + sx * sz + sy * sz), wv = sx * sy * sz;
   const double ga = (double)area(c.B[ia]), gvv = (double)volume(c.B[ia]);
@@ -493,9 +501,9 @@ static void measures(const Cfg<V> &c, int ia, const std::string &spec, Counters 
   h = h * 31 + (uint64_t)(ga * 16) * 4096 + (uint64_t)(gvv * 16);
   const char *cls = wv == 0 ? "degenerate box" : (sx == sy && sy == sz) ? "cube" : "box with different edge lengths";
   if (ga != wa)
-    viol(C, c.name + " area|differs from 2(xy+xz+yz)|" + cls, spec, bstr(c.B[ia]) + " got " + num(ga) + " want " + num(wa));
+    VIOL(C, (wv == 0) + 2 * (sx == sy && sy == sz), c.name + " area|differs from 2(xy+xz+yz)|" + cls, spec, bstr(c.B[ia]) + " got " + num(ga) + " want " + num(wa));
   if (gvv != wv)
-    viol(C, c.name + " volume|differs from x*y*z|" + cls, spec, bstr(c.B[ia]) + " got " + num(gvv) + " want " + num(wv));
+    VIOL(C, (wv == 0) + 2 * (sx == sy && sy == sz), c.name + " volume|differs from x*y*z|" + cls, spec, bstr(c.B[ia]) + " got " + num(gvv) + " want " + num(wv));
 }
 
 template <typename V>
@@ -521,11 +529,11 @@ static void check_box(const Cfg<V> &c, int ia, Counters &C, uint64_t &h)
       bool onface = false;
       for (int i = 0; ia && i < N; i++)
         onface = onface || c.pi[p][i] == c.bl[ia][i] || c.pi[p][i] == c.bu[ia][i];
-      viol(C, c.name + " contains|differs from lower<=p<=upper in every component|" + (ia == 0 ? "empty box" : onface ? "point with a coordinate on a face" : "point off the faces"), spec,
+      VIOL(C, ia == 0 ? 0 : onface ? 1 : 2, c.name + " contains|differs from lower<=p<=upper in every component|" + (ia == 0 ? "empty box" : onface ? "point with a coordinate on a face" : "point off the faces"), spec,
           bstr(a) + " contains" + vstr(c.P[p]) + " = " + (L.test(p) ? "true" : "false"));
     }
     if (a.empty() != (ia == 0))
-      viol(C, c.name + " empty|" + (ia == 0 ? "default-constructed box is not empty|" : "box with lower<=upper reported empty|") + "any", spec, bstr(a));
+      VIOL(C, ia == 0, c.name + " empty|" + (ia == 0 ? "default-constructed box is not empty|" : "box with lower<=upper reported empty|") + "any", spec, bstr(a));
   }
   // extend(point)
   for (int p = 0; p < c.NP; p++) {
@@ -537,7 +545,7 @@ static void check_box(const Cfg<V> &c, int ia, Counters &C, uint64_t &h)
     C.states++;
     C.trans++;
     if (!(same(E.lower, c.B[hb].lower) && same(E.upper, c.B[hb].upper)))
-      viol(C, c.name + " extend(point)|result is not the smallest box containing the box and the point|" + (ia == 0 ? "empty box" : c.M[ia].test(p) ? "point inside" : "point outside"), spec,
+      VIOL(C, ia == 0 ? 0 : c.M[ia].test(p) ? 1 : 2, c.name + " extend(point)|result is not the smallest box containing the box and the point|" + (ia == 0 ? "empty box" : c.M[ia].test(p) ? "point inside" : "point outside"), spec,
           bstr(a) + " extend " + vstr(c.P[p]) + " = " + bstr(E) + " want " + bstr(c.B[hb]));
   }
   if (ia == 0)
@@ -551,10 +559,10 @@ static void check_box(const Cfg<V> &c, int ia, Counters &C, uint64_t &h)
       const double gs = (double)Tr::get(sz, i), gc = (double)Tr::get(ct, i), half = (lo + hi) / 2;
       h = h * 31 + (uint64_t)(int64_t)(gs * 4) * 64 + (uint64_t)(int64_t)(gc * 4 + 32);
       if (gs != hi - lo)
-        viol(C, c.name + " size|differs from upper-lower|any", spec, bstr(a) + " size " + vstr(sz));
+        VIOL(C, 0, c.name + " size|differs from upper-lower|any", spec, bstr(a) + " size " + vstr(sz));
       const bool ok = isint ? (gc == std::floor(half) || gc == std::ceil(half)) : gc == half;
       if (!ok)
-        viol(C, c.name + " center|differs from (lower+upper)/2|" + (half == std::floor(half) ? "integral midpoint" : "fractional midpoint"), spec,
+        VIOL(C, half == std::floor(half), c.name + " center|differs from (lower+upper)/2|" + (half == std::floor(half) ? "integral midpoint" : "fractional midpoint"), spec,
             bstr(a) + " center " + vstr(ct) + " want component " + std::to_string(i) + " = " + num(half));
     }
     RP("size = " + vstr(sz) + " center = " + vstr(ct));
@@ -580,7 +588,7 @@ static void check_box(const Cfg<V> &c, int ia, Counters &C, uint64_t &h)
     C.trans++;
     h = h * 31 + best;
     if (!same(got, c.P[best]))
-      viol(C, c.name + " clamp|result is not the nearest contained point|" + (c.M[ia].test(p) ? "point inside" : "point outside"), spec,
+      VIOL(C, c.M[ia].test(p), c.name + " clamp|result is not the nearest contained point|" + (c.M[ia].test(p) ? "point inside" : "point outside"), spec,
           bstr(a) + " clamp" + vstr(c.P[p]) + " = " + vstr(got) + " want " + vstr(c.P[best]));
   }
   // scaling by a non-negative factor per dimension, both operand orders
@@ -600,7 +608,7 @@ static void check_box(const Cfg<V> &c, int ia, Counters &C, uint64_t &h)
       C.trans += 1 + c.NP;
       const char *fn = order == 0 ? " box*scale" : " scale*box";
       if (!(same(R.lower, wlo) && same(R.upper, wup)))
-        viol(C, c.name + fn + "|bounds differ from lower*s, upper*s|" + (pos ? "positive factors" : "a factor is zero"), spec,
+        VIOL(C, pos, c.name + fn + "|bounds differ from lower*s, upper*s|" + (pos ? "positive factors" : "a factor is zero"), spec,
             bstr(a) + " * " + vstr(s) + " = " + bstr(R) + " want " + bstr(Box(wlo, wup)));
       for (int p = 0; p < c.NP; p++) {
         double ic[4];
@@ -608,7 +616,7 @@ static void check_box(const Cfg<V> &c, int ia, Counters &C, uint64_t &h)
           ic[i] = c.pc(p, i) * sc[i];
         const bool in = R.contains(Tr::make(ic));
         if (c.M[ia].test(p) ? !in : (pos && in)) {
-          viol(C, c.name + fn + (c.M[ia].test(p) ? "|image of a contained point is not contained|" : "|image of an outside point is contained|") + (pos ? "positive factors" : "a factor is zero"), spec,
+          VIOL(C, pos + 2 * c.M[ia].test(p), c.name + fn + (c.M[ia].test(p) ? "|image of a contained point is not contained|" : "|image of an outside point is contained|") + (pos ? "positive factors" : "a factor is zero"), spec,
               bstr(a) + " * " + vstr(s) + " = " + bstr(R) + ", point " + vstr(c.P[p]));
           break;
         }
@@ -629,13 +637,13 @@ static void check_box(const Cfg<V> &c, int ia, Counters &C, uint64_t &h)
       C.trans += 1 + c.NP;
       const char *fn = order == 0 ? " box+translation" : " translation+box";
       if (!(same(R.lower, wlo) && same(R.upper, wup)))
-        viol(C, c.name + fn + "|bounds differ from lower+t, upper+t|any", spec, bstr(a) + " + " + vstr(c.P[t]) + " = " + bstr(R) + " want " + bstr(Box(wlo, wup)));
+        VIOL(C, 0, c.name + fn + "|bounds differ from lower+t, upper+t|any", spec, bstr(a) + " + " + vstr(c.P[t]) + " = " + bstr(R) + " want " + bstr(Box(wlo, wup)));
       for (int p = 0; p < c.NP; p++) {
         double ic[4];
         for (int i = 0; i < N; i++)
           ic[i] = c.pc(p, i) + c.pc(t, i);
         if (R.contains(Tr::make(ic)) != c.M[ia].test(p)) {
-          viol(C, c.name + fn + "|p+t is contained differs from p was contained|any", spec, bstr(a) + " + " + vstr(c.P[t]) + " = " + bstr(R) + ", point " + vstr(c.P[p]));
+          VIOL(C, 0, c.name + fn + "|p+t is contained differs from p was contained|any", spec, bstr(a) + " + " + vstr(c.P[t]) + " = " + bstr(R) + ", point " + vstr(c.P[p]));
           break;
         }
       }
